@@ -356,7 +356,7 @@ class EquinoctialElements(OrbitalElements):
         Returns:
             :class:`.EquinoctialElements`: constructed EQE object.
         """
-        return cls(*eci2eqe(eci_state, mu=mu, retro=retro))
+        return cls(*eci2eqe(eci_state, mu=mu, retro=retro), retro=retro)
 
     @classmethod
     def fromCOE(
@@ -386,7 +386,7 @@ class EquinoctialElements(OrbitalElements):
         Returns:
             :class:`.EquinoctialElements`: constructed EQE object.
         """
-        return cls(*coe2eqe(sma, ecc, inc, raan, argp, true_anom, retro=retro))
+        return cls(*coe2eqe(sma, ecc, inc, raan, argp, true_anom, retro=retro), retro=retro)
 
     def toECI(self, mu: float = Earth.mu) -> ndarray:
         r"""Convert a set of EQEs to an ECI (J2000) position and velocity vector.
